@@ -553,9 +553,14 @@ def extra_carriers(ctx, rec):
     # single precision at the edge of its resolution: even numbers just above 2^24 are exact in float32, their
     # midpoints and odd differences are not -- arithmetic carried out in the carrier's own precision would show
     for fn in ("spike", "roc", "flat", "dens"):
-        for rep in range(ctx.pick(30, 120)):
+        for rep in range(ctx.pick(60, 200) if fn == "spike" else ctx.pick(30, 120)):
             c = g.base(fn)
             c["x"] = [v if v == gen_qc.NA else 2 ** 24 + 2 * v for v in c["x"]]
+            if fn == "spike" and rep % 3:
+                # the midpoint reference with thresholds of the size of the rounding step, so that a reference off by one shows
+                c["x"] = [2 ** 24 + 2 * g.r.randint(-6, 6) for _ in range(g.r.randint(6, 12))]
+                c["p"]["method"] = "average"
+                c["p"]["st"], c["p"]["ft"] = [[1, 1], [1, 2], [2, 1]][rep % 3], [[3, 1], [], [5, 2]][rep % 3]
             steps = [({"kind": "base", "i": 0, "k": 0}, c)]
             for v in ({"xc": "f32"}, {"xc": "series_f32"}, {"xc": "ma_f32"}):
                 steps.append(({"kind": "recall", "i": 0, "k": 0}, json.loads(json.dumps(c)),
